@@ -254,4 +254,44 @@ Proof.
   rewrite Ef. f_equal. rewrite Hout. rewrite Ers. reflexivity.
 Qed.
 
+(* DETERMINACY: the head row is a function of the row choice.  Two derivations of the rule for the same row
+   choice (both under the hypotheses of compile_complete) have the same head row, the one the SQL emits: the
+   rule is range restricted in the sense that matters, no head value is left to the valuation. *)
+Corollary head_row_determined_by_row_choice is_x r final rho tau1 tau2 :
+  compiled is_x r final ->
+  (forall tau, tau = tau1 \/ tau = tau2 ->
+     cells_ok tau (x_cols (extract r)) rho /\
+     (forall l r0, In (l, r0) (fst (extract_head (k_head r) 0)) -> peval tau l = peval tau r0) /\
+     derives tau rho r /\
+     (forall s1 l r0, represents app (map fst (x_cols (extract r))) (x_rs (extract r)) s1 ->
+        In (l, r0) (unifs s1) -> peval tau l <> VNull)) ->
+  head_row app tau1 r = head_row app tau2 r.
+Proof.
+  intros Hc H.
+  destruct (H tau1 (or_introl eq_refl)) as [C1 [Hh1 [D1 N1]]].
+  destruct (H tau2 (or_intror eq_refl)) as [C2 [Hh2 [D2 N2]]].
+  pose proof (compile_complete is_x r final rho tau1 Hc C1 Hh1 D1 N1) as E1.
+  pose proof (compile_complete is_x r final rho tau2 Hc C2 Hh2 D2 N2) as E2.
+  rewrite E1 in E2. inversion E2. reflexivity.
+Qed.
+
+(* SOUND and COMPLETE together: under the hypotheses of compile_complete the SQL row for rho is defined, and
+   it is the head row of a derivation (compile_sound gives one back; its head row is the same row). *)
+Corollary compile_exact is_x r final rho tau :
+  compiled is_x r final -> wf_choice (x_cols (extract r)) rho ->
+  cells_ok tau (x_cols (extract r)) rho ->
+  (forall l r0, In (l, r0) (fst (extract_head (k_head r) 0)) -> peval tau l = peval tau r0) ->
+  derives tau rho r ->
+  (forall s1 l r0, represents app (map fst (x_cols (extract r))) (x_rs (extract r)) s1 ->
+     In (l, r0) (unifs s1) -> peval tau l <> VNull) ->
+  exists out tau', sql_row app (x_cols (extract r)) final rho = Some out /\
+     out = head_row app tau r /\ derives tau' rho r /\ head_row app tau' r = out.
+Proof.
+  intros Hc Hwf C Hh D N.
+  pose proof (compile_complete is_x r final rho tau Hc C Hh D N) as E.
+  destruct (compile_sound is_x r final rho _ Hc Hwf E) as [tau' [D' O']].
+  exists (head_row app tau r), tau'.
+  split; [exact E|]. split; [reflexivity|]. split; [exact D'|exact O'].
+Qed.
+
 End Correct.
